@@ -15,6 +15,7 @@ import (
 	"strconv"
 	"strings"
 	"unicode"
+	"unicode/utf8"
 
 	"golang.org/x/tools/go/ssa"
 )
@@ -189,6 +190,50 @@ func installStringModels(m *Machine) {
 		}
 		return []Val{ts}, true
 	})
+	m.Hooks["strings.ToUpper"] = s1(func(a string) Val { return strings.ToUpper(a) })
+	m.Hooks["strings.ToTitle"] = s1(func(a string) Val { return strings.ToTitle(a) })
+	m.Hooks["strings.ToValidUTF8"] = func(m *Machine, st *State, call *ssa.CallCommon, args []Val) ([]Val, bool) {
+		a, ok := exactStrings(args)
+		if !ok || len(a) != 2 {
+			return nil, false
+		}
+		return []Val{strings.ToValidUTF8(a[0], a[1])}, true
+	}
+	m.Hooks["strings.Compare"] = s2(func(st *State, a, b string) Val { return int64(strings.Compare(a, b)) })
+	m.Hooks["strings.LastIndexAny"] = s2(func(st *State, a, b string) Val { return int64(strings.LastIndexAny(a, b)) })
+	m.Hooks["strings.CutPrefix"] = func(m *Machine, st *State, call *ssa.CallCommon, args []Val) ([]Val, bool) {
+		a, ok := exactStrings(args)
+		if !ok || len(a) != 2 {
+			return nil, false
+		}
+		after, found := strings.CutPrefix(a[0], a[1])
+		return []Val{&TupleV{E: []Val{after, found}}}, true
+	}
+	m.Hooks["strings.CutSuffix"] = func(m *Machine, st *State, call *ssa.CallCommon, args []Val) ([]Val, bool) {
+		a, ok := exactStrings(args)
+		if !ok || len(a) != 2 {
+			return nil, false
+		}
+		before, found := strings.CutSuffix(a[0], a[1])
+		return []Val{&TupleV{E: []Val{before, found}}}, true
+	}
+	m.Hooks["strings.SplitAfterN"] = func(m *Machine, st *State, call *ssa.CallCommon, args []Val) ([]Val, bool) {
+		a, ok1 := args[0].(string)
+		b, ok2 := args[1].(string)
+		n, ok3 := args[2].(int64)
+		if !ok1 || !ok2 || !ok3 {
+			return nil, false
+		}
+		return []Val{strSlice(st, strings.SplitAfterN(a, b, int(n)))}, true
+	}
+	m.Hooks["unicode/utf8.RuneCountInString"] = func(m *Machine, st *State, call *ssa.CallCommon, args []Val) ([]Val, bool) {
+		a, ok := args[0].(string)
+		return []Val{int64(utf8.RuneCountInString(a))}, ok
+	}
+	m.Hooks["unicode/utf8.ValidString"] = func(m *Machine, st *State, call *ssa.CallCommon, args []Val) ([]Val, bool) {
+		a, ok := args[0].(string)
+		return []Val{utf8.ValidString(a)}, ok
+	}
 	m.Hooks["strings.Index"] = s2(func(st *State, a, b string) Val { return int64(strings.Index(a, b)) })
 	m.Hooks["strings.LastIndex"] = s2(func(st *State, a, b string) Val { return int64(strings.LastIndex(a, b)) })
 	m.Hooks["strings.Split"] = s2(func(st *State, a, b string) Val { return strSlice(st, strings.Split(a, b)) })
@@ -352,6 +397,35 @@ func installStringModels(m *Machine) {
 		}
 		id := st.alloc(types.NewArray(types.NewSlice(types.Typ[types.Uint8]), int64(len(arr.E))), arr)
 		return []Val{SliceV{Obj: id, Len_: len(arr.E), Cap: len(arr.E)}}, true
+	}
+	m.Hooks["encoding/hex.DecodedLen"] = func(m *Machine, st *State, call *ssa.CallCommon, args []Val) ([]Val, bool) {
+		n, ok := args[0].(int64)
+		return []Val{n / 2}, ok
+	}
+	m.Hooks["encoding/hex.EncodedLen"] = func(m *Machine, st *State, call *ssa.CallCommon, args []Val) ([]Val, bool) {
+		n, ok := args[0].(int64)
+		return []Val{n * 2}, ok
+	}
+	m.Hooks["encoding/hex.Decode"] = func(m *Machine, st *State, call *ssa.CallCommon, args []Val) ([]Val, bool) {
+		dst, ok0 := args[0].(SliceV)
+		src, ok := byteSliceOf(st, args[1])
+		if !ok0 || !ok || dst.Abs {
+			return nil, false
+		}
+		out := make([]byte, hex.DecodedLen(len(src)))
+		n, err := hex.Decode(out, src)
+		if n > dst.Len_ {
+			st.Status = stPanic
+			st.Msg = "hex.Decode: destination too short"
+			return nil, true
+		}
+		for i := 0; i < n; i++ {
+			st.store(Ptr{Obj: dst.Obj, Path: pathAppend(dst.Path, dst.Lo+i)}, int64(out[i]))
+		}
+		if err != nil {
+			return []Val{&TupleV{E: []Val{int64(n), IfaceV{T: errType, V: "bad hex"}}}}, true
+		}
+		return []Val{&TupleV{E: []Val{int64(n), nilV{}}}}, true
 	}
 	m.Hooks["encoding/hex.EncodeToString"] = func(m *Machine, st *State, call *ssa.CallCommon, args []Val) ([]Val, bool) {
 		if o, ok := args[0].(OpaqueV); ok {
